@@ -264,7 +264,8 @@ class QueryPlanner:
                     node.parentheses = False
                     last_step = self.plan_select(node)
 
-                    node2 = Parameter(last_step.result)
+                    # keep the name of the column
+                    node2 = Parameter(last_step.result, alias=node.alias)
 
                     return node2
 
